@@ -13,7 +13,10 @@ use serde_json::{json, Value};
 
 pub const ALPHABET: [char; 18] = ['"', '\\', '~', '%', '(', ')', ';', '#', '\'', '\n', '\t', '\u{1}', '\u{7f}', 'é', '日', 'a', ' ', '*'];
 
-pub const CARRIERS: [&str; 44] = [
+pub const CARRIERS: [&str; 48] = [
+    // the pattern branch of -xattr-match is chosen by either argument: each argument next to a
+    // partner that selects it
+    "xattr-match-attr*", "xattr-match-value*", "xattr-match-attr*+framed", "xattr-match-value*+framed",
     "user?", "group?", "regex?", "fstype?", "lname?",
     "pool+long2", "xattr-match-value+long2", "printf-literal+long2", "name+long2",
     "pool+long", "xattr+long", "xattr-match-value+long", "printf-literal+long", "name+long",
@@ -71,6 +74,8 @@ fn tree_for_base(carrier: &str, s: &str) -> Option<E> {
         "pool" => E::T(Tst::Pool(st)),
         "xattr" => E::T(Tst::Xattr(st)),
         "xattr-match-attr" => E::T(Tst::XattrMatch(st, "v".into())),
+        "xattr-match-attr*" => E::T(Tst::XattrMatch(st, "v*[1]?".into())),
+        "xattr-match-value*" => E::T(Tst::XattrMatch("user.[t]*".into(), st)),
         "xattr-match-value" => E::T(Tst::XattrMatch("user.tag".into(), st)),
         "fprint" => E::A(Act::FPrint(st)),
         "fprint0" => E::A(Act::FPrint0(st)),
@@ -595,6 +600,7 @@ pub fn run(ctx: &Ctx) -> Report {
     let tree_json = |t: &E| json!({"kind": "tree", "tree": term::encode_expr(t)});
     let mut twins = crate::combo::concat_twin_trees();
     twins.extend(crate::combo::escape_twin_trees());
+    twins.extend(crate::combo::long_prefix_twin_trees());
     let tw = run_shards(16, |shard| {
         let mut st = Stats::new();
         for (i, t) in twins.iter().enumerate().filter(|(i, _)| i % 16 == shard) {
@@ -605,6 +611,27 @@ pub fn run(ctx: &Ctx) -> Report {
         st
     });
     total.merge(tw);
+    // a string-carrying test after every kind of context leaf (a formatted print with each directive,
+    // formats cut by \\c, every kind of test and action): the literal is the user's string whatever
+    // was compiled before it
+    let ctxs = crate::combo::context_leaves();
+    let after = run_shards(16, |shard| {
+        let mut st = Stats::new();
+        for (i, c) in ctxs.iter().enumerate().filter(|(i, _)| i % 16 == shard) {
+            for s in ["po~ol~~x", "a\"b", "back\\", "100%", "x;y#(z)", "~a~%~"] {
+                for subj in [E::T(Tst::Pool(s.into())), E::T(Tst::Xattr(s.into())), E::T(Tst::XattrMatch("user.t".into(), s.into())), E::T(Tst::XattrMatch(s.into(), "v*".into())), E::T(Tst::IName(s.into())), E::A(Act::FPrint(s.into()))] {
+                    for t in [E::list(c.clone(), subj.clone()), E::or(E::and(c.clone(), E::T(Tst::False)), subj.clone())] {
+                        let v = judge_tree(&t);
+                        st.record(&v, stable_hash(&t), true, || tree_json(&t));
+                    }
+                }
+            }
+            let _ = i;
+        }
+        st.samples.truncate(1);
+        st
+    });
+    total.merge(after);
     crate::fuzzrun::replay_policy_trees(&mut total, judge_tree);
     let tr = crate::combo::run_triples(ctx.seed, &crate::combo::supported_kinds(), ctx.tier.pick(64, 4), judge_tree, tree_json);
     total.merge(tr);
